@@ -1,27 +1,14 @@
 #!/bin/bash
-# Derive lean/CacheVerif/Proofs/DeepCacheOf.lean (generic twin) from DeepCache.lean: the proof scripts are the same,
-# only the twin, its model and its leaves differ.  Run after editing DeepCache.lean.
+# Derive the generic twin's proof files from the string twin's: the proof scripts are the same, only the twin, its
+# model and its leaves differ.  Run after editing DeepCache.lean / DeepTrace.lean.
 cd /verif/lean
 sed -e 's/namespace DeepCache/namespace DeepCacheOf/; s/end DeepCache/end DeepCacheOf/; s/twinMap/twinMapOf/g; s/Model\.Cache\./Model.CacheOf./g; s/Gen\.item_/Gen.itemOf_/g; s/Gen\.expiration\b/Gen.expirationOf/g; s/xsync_map\.go/xsync_mapof.go/g; s/import CacheVerif.Model.Cache$/import CacheVerif.Model.CacheOf/; s/`Model.Cache`/`Model.CacheOf`/' CacheVerif/Proofs/DeepCache.lean > CacheVerif/Proofs/DeepCacheOf.lean
-python3 - <<'P'
-p='CacheVerif/Proofs/DeepCacheOf.lean'; s=open(p).read()
-a=s.index("attribute [deep_simp] deepStep"); b=s.index("/-- definitions of the hand-written model")
-s=s[:a]+s[b:]
-s=s.replace("import CacheVerif.Model.CacheOf\n","import CacheVerif.Model.CacheOf\nimport CacheVerif.Proofs.DeepCache\n")
-s=s.replace("AMap.store AMap.load AMap.compute Model.CacheOf.getOrSetFn","Model.CacheOf.getOrSetFn").replace("\n  Model.CacheOf.getAndDelete AMap.size","\n  Model.CacheOf.getAndDelete")
-open(p,'w').write(s)
-P
-# the trace theorems of the generic twin: same scripts; the model M5 is written with the leaves of xsync_map.go, so the
-# generic leaves are rewritten to them (Proofs.Twin: the two sets of machine-translated leaves are equal)
-sed -e 's/namespace DeepTrace/namespace DeepTraceOf/; s/\bAgrees\b/AgreesOf/g; s/end DeepTrace/end DeepTraceOf/; s/twinMapTr/twinMapOfTr/g; s/twinMap\b/twinMapOf/g; s/xsync_map\.go/xsync_mapof.go/g; s/deep_simp, \*\]/deep_simp, DeepTraceOf.ofx, DeepTraceOf.ofxw, DeepTraceOf.ofe, *]/; s/simp \[deep_simp, twinMapOfTr, twinMapOf, hide/simp [deep_simp, DeepTraceOf.ofx, DeepTraceOf.ofxw, DeepTraceOf.ofe, twinMapOfTr, twinMapOf, hide/g' CacheVerif/Proofs/DeepTrace.lean > CacheVerif/Proofs/DeepTraceOf.lean
+# the trace theorems of the generic twin: the model M5 is written with the leaves of xsync_map.go, so the generic leaves
+# are rewritten to them (the two sets of machine-translated leaves are equal: ofx, ofxw, ofe)
+sed -e 's/namespace DeepTrace/namespace DeepTraceOf/; s/\bAgrees\b/AgreesOf/g; s/end DeepTrace/end DeepTraceOf/; s/twinMapTr/twinMapOfTr/g; s/twinMap\b/twinMapOf/g; s/xsync_map\.go/xsync_mapof.go/g; s/deep_simp, \*\]/deep_simp, DeepTraceOf.ofx, DeepTraceOf.ofxw, DeepTraceOf.ofe, *]/; s/simp \[deep_simp, twinMapOfTr, twinMapOf, hide/simp [deep_simp, DeepTraceOf.ofx, DeepTraceOf.ofxw, DeepTraceOf.ofe, twinMapOfTr, twinMapOf, hide/g; s/dummy_never/dummy_never/' CacheVerif/Proofs/DeepTrace.lean > CacheVerif/Proofs/DeepTraceOf.lean
 python3 - <<'P'
 p='CacheVerif/Proofs/DeepTraceOf.lean'; s=open(p).read()
-s=s.replace("import CacheVerif.Proofs.DeepCache\n","import CacheVerif.Proofs.DeepCacheOf\nimport CacheVerif.Proofs.DeepTrace\n")
-import re
-s=re.sub(r"-- <shared>\n.*?-- </shared>\n", "", s, flags=re.S)
-s=s.replace("/-- the model's side and the code's side of one call", '''open DeepTrace
-
-theorem ofx (e now : Int) : Gen.itemOf_expired e now = Gen.item_expired e now := by
+s=s.replace("/-- the model's side and the code's side of one call", '''theorem ofx (e now : Int) : Gen.itemOf_expired e now = Gen.item_expired e now := by
   simp [Gen.itemOf_expired, Gen.item_expired]
 theorem ofxw (e now : Int) : Gen.itemOf_expiredWithNow e now = Gen.item_expiredWithNow e now := by
   simp [Gen.itemOf_expiredWithNow, Gen.item_expiredWithNow]
